@@ -126,4 +126,33 @@ def register(P):
             ctx.results["first-deviation"] = repr(bad[0])
         ctx.ensure("E_s(x)-within-tolerance-on-the-grid", not bad)
 
+    @contract(P, "special.inc_gamma,inc_gamma_low/values-against-the-defining-integrals(mpmath)",
+              params={"s": [0.5, 1.0, 1.5, 2.0, 2.5, 3.5, 5.5, 10.0]},
+              functions=["tools/special.py:inc_gamma", "tools/special.py:inc_gamma_low"],
+              bounded="grid: 8 orders x 18 arguments 1e-12 .. 40 (lower function) resp. 1e-8 .. 40 (upper function, also the "
+                      "negative orders -s up to x = 20); reference mpmath.gammainc at 30 digits; relative tolerance 1e-8")
+    def inc_gamma_values(ctx, s):
+        """bounded native stand-in for floating-point effects (e.g. evaluating the lower function as a difference
+        Gamma(s) - Gamma(s, x), which cancels for small x): the values are those of the documented integrals"""
+        import mpmath as mp
+        import gstools.tools.special as real
+        mp.mp.dps = 30
+        bad = []
+        with symrun.native():
+            for x in [10.0 ** e for e in range(-12, 2)] + [2.0, 5.0, 20.0, 40.0]:
+                got = float(np.asarray(real.inc_gamma_low(s, np.array([x]))).ravel()[0])
+                ref = float(mp.gammainc(s, 0, x))
+                if not abs(got - ref) <= 1e-8 * abs(ref) + 1e-300:
+                    bad.append(("low", s, x, got, ref))
+                if x >= 1e-8:
+                    # negative orders (the recurrence) up to x = 20: the range exp_int uses them in
+                    for ss in ((s, -s) if x <= 20.0 else (s,)):
+                        got = float(np.asarray(sp.inc_gamma(ss, np.array([x]))).ravel()[0])
+                        ref = float(mp.gammainc(ss, x))
+                        if not abs(got - ref) <= 1e-8 * abs(ref) + 1e-300:
+                            bad.append(("up", ss, x, got, ref))
+        if bad and ctx.mode == "conc":
+            ctx.results["first-deviation"] = repr(bad[0])
+        ctx.ensure("values-within-tolerance-on-the-grid", not bad)
+
     return exp_int_dispatch, inc_gamma_dispatch
